@@ -585,7 +585,7 @@ const PL: u128 = 150_00000000;
 const PS: u128 = 1_00000000;
 
 type Id = (u8, char, u8);
-struct Sid { w: World, now: i64, acts: BTreeMap<Id, Act>, changes: BTreeMap<Id, u32>, mdeps: u32 }
+struct Sid { w: World, now: i64, acts: BTreeMap<Id, Act>, changes: BTreeMap<Id, u32>, mdeps: u32, shifts: BTreeMap<u8, Shift>, last_shift: i64 }
 
 fn parse_id(t: &str) -> Option<Id> {
     let p: Vec<&str> = t.split('.').collect();
@@ -614,12 +614,21 @@ fn vaults(w: &World) -> (u64, u64) { (token_amount(&w.b, &w.long_vault).unwrap_o
 fn glv_vaults(w: &World) -> [u64; 2] { [0, 1].map(|i| token_amount(&w.b, &w.glv_vault[i]).unwrap_or(0)) }
 fn glv_composition(w: &World) -> Vec<Pubkey> { let g: Box<gmsol_store::states::Glv> = Box::new(pod(&w.b.get(&w.glv).data)); g.market_tokens().collect() }
 
+fn shift_state(w: &World, sh: &Shift) -> Option<u8> {
+    use gmsol_store::states::common::action::{Action, ActionState};
+    let a = w.b.m.get(&sh.key)?;
+    let x: Box<gmsol_store::states::GlvShift> = Box::new(pod(&a.data));
+    Some(match x.header().action_state().ok()? { ActionState::Pending => 0, ActionState::Completed => 1, ActionState::Cancelled => 2, _ => 9 })
+}
+fn shift_nonce(i: u8) -> [u8; 32] { [200 + i; 32] }
+
 fn digest(s: &Sid) -> String {
     let w = &s.w;
+    let shifts: Vec<String> = s.shifts.iter().filter_map(|(i, sh)| shift_state(w, sh).map(|st| format!("{i}:{st}:{}:{}:{}", sh.from, sh.to, sh.amount))).collect();
     let users: Vec<String> = (0..NUSERS).map(|u| { let k = user_key(u); format!("{u}:{}:{}:{}:{}:{}", bal(w, &k, &w.long), bal(w, &k, &w.short), bal(w, &k, &w.mt[0]), bal(w, &k, &w.mt[1]), bal(w, &k, &w.glv_token)) }).collect();
     let acts: Vec<String> = s.acts.iter().filter_map(|(id, a)| act_state(w, *id).map(|st| { let e = esc(w, &a.key, a.m); format!("{}.{}.{}:{st}:{}:{}:{}:{}:{}", id.0, id.1, id.2, a.m, e.0, e.1, e.2, e.3) })).collect();
     let (v, gv, gr) = (vaults(w), glv_vaults(w), glv_recorded(w));
-    format!("now={} users=[{}] acts=[{}] vault={}:{} glvvault={}:{} glvrec={}:{} mtsupply={}:{} glvsupply={}", s.now, users.join(","), acts.join(","),
+    format!("now={} users=[{}] acts=[{}] shifts=[{}] vault={}:{} glvvault={}:{} glvrec={}:{} mtsupply={}:{} glvsupply={}", s.now, users.join(","), acts.join(","), shifts.join(","),
         v.0, v.1, gv[0], gv[1], gr[0], gr[1], mint_supply(&w.b, &w.mt[0]), mint_supply(&w.b, &w.mt[1]), mint_supply(&w.b, &w.glv_token))
 }
 
@@ -771,7 +780,7 @@ fn exec(ss: &mut BTreeMap<String, Sid>, req: &str, out: &mut Out) -> (String, bo
         NOW.store(1_700_000_000, Ordering::SeqCst);
         let mut w = World::new();
         for u in 0..NUSERS { w.user(u, LONG0, SHORT0); }
-        let s = Sid { w, now: 1_700_000_000, acts: BTreeMap::new(), changes: BTreeMap::new(), mdeps: 0 };
+        let s = Sid { w, now: 1_700_000_000, acts: BTreeMap::new(), changes: BTreeMap::new(), mdeps: 0, shifts: BTreeMap::new(), last_shift: 0 };
         let d = digest(&s);
         ss.insert(sid, s);
         return (format!("ok | {d}"), false);
@@ -931,6 +940,104 @@ fn exec(ss: &mut BTreeMap<String, Sid>, req: &str, out: &mut Out) -> (String, bo
                 }
             }
         }
+        // ---- GLV shifts (keeper only)
+        "screate" => {
+            if t.len() != 9 { return bad(); }
+            let (Some(auth), Some(i), Some(from), Some(to), Some(amount), Some(el)) = (who(&s.w, t[3]), t[4].parse::<u8>().ok().filter(|i| *i < 2), t[5].parse::<usize>().ok().filter(|m| *m < 2),
+                t[6].parse::<usize>().ok().filter(|m| *m < 2), t[7].parse::<u64>().ok(), t[8].parse::<u64>().ok().filter(|e| *e <= 50_000_000)) else { return bad() };
+            if from == to {
+                // the account constraint rejects equal markets; the harness's fixed arrays would alias, so do not call
+                return (format!("err | {}", digest(s)), false);
+            }
+            let keeper = s.w.keeper;
+            let occupied = s.shifts.contains_key(&i);
+            // one slot = one (keeper, nonce) address: a live shift of ANY creator occupies it in the model; only the keeper can create
+            if occupied || auth != keeper && s.w.b.m.contains_key(&s.w.gs_key(&keeper, &shift_nonce(i))) { return (format!("err | {}", digest(s)), false); }
+            let gv0 = glv_vaults(&s.w);
+            match s.w.create_glv_shift(auth, shift_nonce(i), from, to, amount, el) {
+                Err(_) => (format!("err | {}", digest(s)), false),
+                Ok(sh) => {
+                    if auth != keeper { out.oracle_fail("a GLV shift was created by a non-keeper", req); }
+                    if amount == 0 || amount > gv0[from] { out.oracle_fail("a GLV shift was created for an amount the vault does not hold", req); }
+                    if s.now < s.last_shift + 3600 { out.oracle_fail("a GLV shift was created before the shift interval passed", req); }
+                    if shift_state(&s.w, &sh) != Some(0) { out.oracle_fail("new GLV shift is not pending", req); }
+                    s.shifts.insert(i, sh);
+                    invariants(s, &tot0, &comp0, req, out);
+                    (format!("ok | {}", digest(s)), true)
+                }
+            }
+        }
+        "sexec" => {
+            if t.len() != 9 { return bad(); }
+            let (Some(auth), Some(i), Some(fee), Some(throw), Some(dfail), Some(dx)) = (who(&s.w, t[3]), t[4].parse::<u8>().ok().filter(|i| *i < 2), t[5].parse::<u64>().ok(),
+                t[6].parse::<u8>().ok().filter(|x| *x < 2), t[7].parse::<u8>().ok().filter(|x| *x < 2), t[8].parse::<u64>().ok()) else { return bad() };
+            let Some(sh) = s.shifts.get(&i).cloned() else { return (format!("err | {}", digest(s)), false) };
+            let st0 = shift_state(&s.w, &sh);
+            let w0 = s.w.clone();
+            let users0: Vec<_> = (0..NUSERS).map(|u| esc(&w0, &user_key(u), 0)).collect();
+            let kl0 = s.w.b.get(&auth).lamports;
+            // GLV value of the whole supply (minimised), through the real instruction on a clone
+            let gsup = mint_supply(&w0.b, &w0.glv_token);
+            let val0 = { let mut c = w0.clone(); c.glv_token_value(gsup, false) };
+            match s.w.execute_glv_shift(auth, &sh, fee, throw == 1) {
+                Err(_) => (format!("err | {}", digest(s)), false),
+                Ok(()) => {
+                    let st1 = shift_state(&s.w, &sh);
+                    let paid = s.w.b.get(&auth).lamports - kl0;
+                    if st0 != Some(0) { out.oracle_fail("C23: an already completed or cancelled GLV shift was executed again", req); }
+                    if auth != s.w.keeper { out.oracle_fail("GLV shift executed by a non-keeper", req); }
+                    let (gv0, gv1) = (glv_vaults(&w0), glv_vaults(&s.w));
+                    let sup = |w: &World, m: usize| mint_supply(&w.b, &w.mt[m]);
+                    // never touches users, the shared collateral vaults or the GLV supply
+                    let users1: Vec<_> = (0..NUSERS).map(|u| esc(&s.w, &user_key(u), 0)).collect();
+                    if users1 != users0 || vaults(&s.w) != vaults(&w0) || mint_supply(&s.w.b, &s.w.glv_token) != gsup { out.oracle_fail("a GLV shift moved user funds, collateral vaults or the GLV supply", req); }
+                    match st1 {
+                        Some(1) => {
+                            let x = gv1[sh.to] - gv0[sh.to];
+                            let ok = gv0[sh.from] - gv1[sh.from] == sh.amount && sup(&w0, sh.from) - sup(&s.w, sh.from) == sh.amount && sup(&s.w, sh.to) - sup(&w0, sh.to) == x;
+                            if !ok { out.oracle_fail("completed GLV shift: market tokens did not move exactly between the GLV vaults and the supplies", req); }
+                            if x != dx || dfail == 1 { out.oracle_fail(&format!("shift received {x}, declared {dx} (fail={dfail})"), req); }
+                            if s.now < s.last_shift + 3600 { out.oracle_fail("a GLV shift was executed before the shift interval passed", req); }
+                            // GLV value (minimised, whole supply) does not drop by more than the max shift price impact (1 %) of the
+                            // shifted value — bounded here by 1 % of the whole GLV value — plus rounding
+                            let val1 = { let mut c = s.w.clone(); c.glv_token_value(gsup, false) };
+                            if let (Some(a), Some(b)) = (val0, val1) {
+                                out.stat("shift.value_checked");
+                                if b + a / 100 + 1_000_000 < a { out.oracle_fail(&format!("GLV value dropped from {a} to {b} in a shift (more than the 1 % price-impact guard allows)"), req); }
+                                if b < a { out.stat("shift.value_dropped_within_guard"); }
+                            }
+                            s.last_shift = s.now;
+                            out.stat("sexec.completed");
+                        }
+                        Some(2) => {
+                            if gv1 != gv0 || sup(&s.w, 0) != sup(&w0, 0) || sup(&s.w, 1) != sup(&w0, 1) { out.oracle_fail("cancelled GLV shift moved market tokens", req); }
+                            if throw == 1 { out.oracle_fail("soft failure although throw_on_execution_error was set", req); }
+                            out.stat("sexec.cancelled");
+                        }
+                        _ => out.oracle_fail("execute left the GLV shift pending", req),
+                    }
+                    if paid != fee.min(sh.exec_lamports) { out.oracle_fail("shift execution fee differs from min(fee, execution lamports)", req); }
+                    invariants(s, &tot0, &comp0, req, out);
+                    (format!("ok {} fee={paid} | {}", match st1 { Some(1) => "completed", Some(2) => "cancelled", _ => "?" }, digest(s)), true)
+                }
+            }
+        }
+        "sclose" => {
+            if t.len() != 5 { return bad(); }
+            let (Some(auth), Some(i)) = (who(&s.w, t[3]), t[4].parse::<u8>().ok().filter(|i| *i < 2)) else { return bad() };
+            let Some(sh) = s.shifts.get(&i).cloned() else { return (format!("err | {}", digest(s)), false) };
+            let keeper = s.w.keeper;
+            match s.w.close_glv_shift(auth, keeper, &sh) {
+                Err(_) => (format!("err | {}", digest(s)), false),
+                Ok(()) => {
+                    if auth != keeper { out.oracle_fail("a GLV shift was closed by a non-keeper", req); }
+                    if s.w.b.m.contains_key(&sh.key) { out.oracle_fail("GLV shift account still exists after close", req); }
+                    s.shifts.remove(&i);
+                    invariants(s, &tot0, &comp0, req, out);
+                    (format!("ok | {}", digest(s)), true)
+                }
+            }
+        }
         // (v) round-trip probe on clones; never changes the world
         "rt" => {
             if t.len() != 7 { return bad(); }
@@ -1010,6 +1117,44 @@ fn gen_next(r: &mut Rng, ss: &BTreeMap<String, Sid>, g: &mut Gen) -> String {
             let e = format!("gl exec {sid} {whoo} {} {fee} {throw} {f} {x} {y} {z}", ids(id));
             if fresh { g.queue.push(e); return format!("gl price {sid} 0"); }
             e
+        }
+        13 if r.chance(2, 3) => {
+            // GLV shifts
+            let gv = glv_vaults(w);
+            let live_sh: Vec<(u8, Option<u8>)> = s.shifts.iter().map(|(i, sh)| (*i, shift_state(w, sh))).collect();
+            let whoo = if r.chance(9, 10) { "k".to_string() } else if r.chance(1, 2) { "a".into() } else { format!("u{}", r.below(NUSERS as u64)) };
+            match if live_sh.is_empty() { 0 } else { r.below(4) } {
+                0 => {
+                    let from = if gv[0] >= gv[1] { 0 } else { 1 };
+                    let from = if r.chance(1, 6) { 1 - from } else { from };
+                    let to = if r.chance(1, 12) { from } else { 1 - from };
+                    let i = (0..2u8).find(|i| !s.shifts.contains_key(i)).unwrap_or(r.below(2) as u8);
+                    let amount = match r.below(6) { 0 => 0, 1 => gv[from].saturating_add(1), _ => if gv[from] == 0 { 1 } else { r.next() % gv[from] + 1 } };
+                    // far enough from the previous shift most of the time
+                    if s.now < s.last_shift + 3600 && r.chance(3, 4) { return format!("gl tick {sid} {}", r.range(3600, 3700)); }
+                    format!("gl screate {sid} {whoo} {i} {from} {to} {amount} {}", match r.below(3) { 0 => 0, _ => r.range(1, 3_000_000) })
+                }
+                1 | 2 => {
+                    let (i, st) = live_sh[r.below(live_sh.len() as u64) as usize];
+                    let fee = match r.below(3) { 0 => 0, _ => r.range(1, 3_000_000) };
+                    let throw = r.below(2) as u8;
+                    let fresh = st == Some(0) && r.chance(4, 5);
+                    let (mut x, mut f) = (0, 0);
+                    if let (Some(sh), Some(auth)) = (s.shifts.get(&i), who(w, &whoo)) {
+                        let mut w2 = w.clone();
+                        NOW.store(s.now, Ordering::SeqCst);
+                        if fresh { w2.set_prices(PL, PS, s.now); }
+                        let g0 = glv_vaults(&w2)[sh.to];
+                        if w2.execute_glv_shift(auth, sh, fee, false).is_ok() {
+                            match shift_state(&w2, sh) { Some(1) => x = glv_vaults(&w2)[sh.to] - g0, Some(2) => f = 1, _ => {} }
+                        }
+                    }
+                    let e = format!("gl sexec {sid} {whoo} {i} {fee} {throw} {f} {x}");
+                    if fresh { g.queue.push(e); return format!("gl price {sid} 0"); }
+                    e
+                }
+                _ => format!("gl sclose {sid} {whoo} {}", live_sh[r.below(live_sh.len() as u64) as usize].0),
+            }
         }
         12 => format!("gl rt {sid} {} {} {} {}", r.below(NUSERS as u64), r.below(2), match r.below(4) { 0 => 0, _ => r.range(1, 5_000_000_000) }, match r.below(4) { 0 => 0, _ => r.range(1, 500_000_000) }),
         _ => {
